@@ -10,7 +10,7 @@ package rules
 // R-C19-4; the store reads are the (transitive) calls of clientv3.KV methods below the pull;
 // the adapters are the syncer methods that call run.
 //
-// Files: c19.go (run, R-C19-1, R-C19-3), c19_reads.go (R-C19-2), c19_eq.go (R-C19-4),
+// Files: c19.go (run, R-C19-1, R-C19-3), c19_timer.go (periodic source of R-C19-3), c19_reads.go (R-C19-2), c19_eq.go (R-C19-4),
 // c19_adapters.go (R-C19-5).
 //
 // Tried on the scratch worktree (/tmp/vw/C19/mut/all.sh, bp.sh; diffs in /tmp/vw/C19/out):
@@ -45,7 +45,14 @@ package rules
 //       time.After alternative, m28 `if len(ch) < cap(ch) { ch <- m }`
 //                                                   → R-C19-5 exactly one send per snapshot (a send that is a
 //                                                     select communication counts only when its case is taken)
+//   m29-m33 periodic source: time.Timer never reset / reset only under a condition / reset only
+//       after a delivery / reset at the end of the closure but skipped by the failed-pull return;
+//       `after := time.After(d)` outside the loop never re-assigned; ticker.Stop() inside the loop
+//                                                   → R-C19-3 run|periodic source keeps firing
 // behaviour-preserving edits (all exit 0):
+//   b12-b17 Timer reset at the top of the timer case / by a defer in the closure / on both paths
+//   of the closure; inline `case <-time.After(d)`; `after` variable re-assigned in its case;
+//   `tick := time.Tick(d)`;
 //   b10 `select { case ch <- m: case <-s.done: }` (snapshot abandoned only on Close); b11 select
 //   with the send as its only case;
 //   b01 locals renamed; b02 comparison extracted into a bool + early return + send before
@@ -104,7 +111,7 @@ type c19pullSite struct {
 func c19(c *core.Ctx) string {
 	c.Rule("R-C19-1", "send only changed, pulled data: in every closure of run that calls the delivery callback, the callback is reachable only after a pull whose error is nil and after the comparison of the last delivered snapshot with the new one reported a difference; the comparison sees the previous snapshot; `last` is set to the new snapshot on exactly the paths that deliver it; a detected difference is always delivered, once")
 	c.Rule("R-C19-2", "one read per snapshot: every successful path of pull (and of each cluster read below it) issues exactly one etcd KV request, so a snapshot is one range response = a state the store really had; the request is not made serializable (successive pulls see non-decreasing store states); the prefix read is used iff the prefix flag is set; pull is called with run's own key and flag")
-	c.Rule("R-C19-3", "liveness skeleton of run: a pull-compare-send precedes the loop on every path; the loop's select has a case on a timer channel and every path through it runs pull-compare-send before the next iteration (convergence without further writes, also after a missed event / etcd restart / cancelled watch); the loop is left only in the case receiving from the syncer's done channel")
+	c.Rule("R-C19-3", "liveness skeleton of run: a pull-compare-send precedes the loop on every path; the loop's select has a case on a timer channel and every path through it runs pull-compare-send before the next iteration (convergence without further writes, also after a missed event / etcd restart / cancelled watch); the timer channel keeps firing: a time.Ticker not stopped while the loop runs, an inline time.After/Tick, or a one-shot Timer / After variable that is re-armed on every path from its firing to the next iteration; the loop is left only in the case receiving from the syncer's done channel")
 	c.Rule("R-C19-4", "equality covers keys and values: the snapshot comparison returns non-false only with equal lengths, only after its per-key loop is exhausted, the loop is left early only with false, every completed iteration established the equality of the entry's value with the other map's entry under the same key; the per-entry comparison returns true for two non-nil entries only if their Value bytes are equal")
 	c.Rule("R-C19-5", "adapters forward every snapshot faithfully: each Sync* method runs the syncer on its own key with prefix = (channel element is a map), its callback sends exactly once per snapshot on the returned channel; single-key adapters look the snapshot up under that key and send nil only when the key is absent; map adapters copy every key (no skipped entry, value taken from the snapshot) and send after the copy is complete; a delivered map is never mutated afterwards (fresh copy, or run never writes into a snapshot map)")
 	c.NotDecided = []string{
@@ -840,9 +847,32 @@ func c19Skeleton(c *core.Ctx, r *c19run) {
 		return true
 	})
 	isTick := map[ast.Stmt]bool{}
-	for _, t := range tick {
+	tickIdx := map[ast.Stmt]int{}
+	srcs := make([]c19source, len(tick))
+	// rearming[i][unit variable] = calling that closure re-arms source i on every path
+	rearming := make([]map[types.Object]bool, len(tick))
+	partial := make([]*flow.State, len(tick))
+	for i, t := range tick {
 		isTick[t] = true
+		tickIdx[t] = i
+		srcs[i] = c19classifySource(r, c19recvFrom(t.Comm), 0)
+		rearming[i] = map[types.Object]bool{}
+		if srcs[i].needsRearm() {
+			for _, u := range r.units {
+				always, bad, ok := c19unitRearms(c, u, srcs[i])
+				if !ok {
+					return
+				}
+				rearming[i][u.v] = always
+				if !always && bad != nil {
+					partial[i] = bad
+				}
+			}
+		}
 	}
+	rearmKey := func(i int) string { return sprintf("%s:%d", c19evRearm, i) }
+	tickKey := func(i int) string { return sprintf("%s:%d", c19evTick, i) }
+	badRearm := make([]*flow.State, len(tick))
 
 	var badInit, badTick *flow.State
 	first, tickIters := 0, 0
@@ -851,9 +881,28 @@ func c19Skeleton(c *core.Ctx, r *c19run) {
 			if isPcs(call) {
 				st.Set(c19evPcs, flow.True)
 			}
+			for i, src := range srcs {
+				if src.rearmCall(f, call) || (isPcs(call) && rearming[i][c19obj(f, call.Fun)]) {
+					st.Set(rearmKey(i), flow.True)
+				}
+			}
+		},
+		OnNode: func(st *flow.State, n ast.Node) {
+			for i, src := range srcs {
+				if src.rearmNode(f, n) {
+					st.Set(rearmKey(i), flow.True)
+				}
+			}
 		},
 		OnBlock: func(st *flow.State, b *cfg.Block) {
 			if b.Stmt == loop && b.Kind == cfg.KindForBody {
+				for i, src := range srcs {
+					if st.Is(tickKey(i), flow.True) && src.needsRearm() && !st.Is(rearmKey(i), flow.True) && badRearm[i] == nil {
+						badRearm[i] = st
+					}
+					st.Set(tickKey(i), flow.Unknown)
+					st.Set(rearmKey(i), flow.Unknown)
+				}
 				if !st.Is(c19evIn, flow.True) {
 					first++
 					if !st.Is(c19evPcs, flow.True) && badInit == nil {
@@ -871,6 +920,8 @@ func c19Skeleton(c *core.Ctx, r *c19run) {
 			}
 			if b.Kind == cfg.KindSelectCaseBody && isTick[b.Stmt] {
 				st.Set(c19evTick, flow.True)
+				st.Set(tickKey(tickIdx[b.Stmt]), flow.True)
+				st.Set(rearmKey(tickIdx[b.Stmt]), flow.False)
 			}
 		},
 	})
@@ -893,6 +944,38 @@ func c19Skeleton(c *core.Ctx, r *c19run) {
 		}
 		c.Check(ok, "R-C19-3", r.cons+"|periodic pull", pos(c, tick[0]),
 			sprintf("%d timer case(s); %d abstract iteration(s) through them, all with pull-compare-send", len(tick), tickIters), why, witness(badTick)...)
+	}
+	// the periodic source keeps firing
+	for i, t := range tick {
+		role := r.cons + "|periodic source keeps firing"
+		if len(tick) > 1 {
+			role = sprintf("%s (timer case#%d)", role, i+1)
+		}
+		src := srcs[i]
+		switch {
+		case src.kind == "":
+			c.Undecide("R-C19-3", role, pos(c, t), src.why)
+		case src.kind == "ticker":
+			at := c19tickerStopped(r, src)
+			c.Check(at == nil, "R-C19-3", role, pos(c, t),
+				"the case receives from a time.Ticker that is only stopped by a defer of run itself",
+				"the ticker that drives the periodic pull is stopped while the loop is still running ("+pos(c, at)+"): from then on no periodic pull happens; after a missed watch event or an etcd outage the syncer never converges without a further write")
+		case !src.needsRearm():
+			c.Discharge("R-C19-3", role, pos(c, t), "the timer channel is armed anew in every iteration (inline time.After/Tick) or is a time.Tick channel")
+		default:
+			w := witness(badRearm[i])
+			if badRearm[i] != nil && partial[i] != nil {
+				w = append(w, "path inside the pull-compare-send closure that returns without re-arming:")
+				w = append(w, witness(partial[i])...)
+			}
+			what := "time.Timer"
+			if src.kind == "aftervar" {
+				what = "time.After channel"
+			}
+			c.Check(badRearm[i] == nil, "R-C19-3", role, pos(c, t),
+				"one-shot "+what+" re-armed on every path from its firing to the next iteration",
+				"the periodic pull is driven by a one-shot "+what+" and some path from its firing to the next loop iteration does not re-arm it (e.g. the early return after a failed pull): after one such iteration — a pull that fails while etcd is down — the periodic pull never fires again, so the syncer does not converge after the outage without a further write", w...)
+		}
 	}
 	// the loop is left only on done
 	exits := breaksOut(f, loop, labelOf(f.Body, loop))
